@@ -81,11 +81,13 @@ class Ctx:
         backing array.  Where the two machines give different answers the implementation is compared with neither."""
         for cmd, ref in (("dec ", "decref "), ("dech ", "dechref ")):
             if case.startswith(cmd):
+                body = case[len(cmd):].split("   ")[0]
                 try:
-                    r = C.run_lean([ref + case[len(cmd):].split("   ")[0]])[0]
+                    again, r = C.run_lean([cmd + body, ref + body])
                 except Exception:
                     return False
-                return r != lean
+                # callers may pass a shortened case text: only a text that reproduces the model's answer is the case itself
+                return again == lean and r != lean
         return False
 
 
